@@ -328,6 +328,31 @@ func runTuple(tb ev.TB, t tuple) (delivered bool, firstClass string) {
 	case "wrong-correlation":
 		bad := int32(0x7ead_beef)
 		act.CorrOverride = &bad
+	case "bad-length":
+		// size prefix and correlation id are right, but the CutAt-th string / bytes / array length inside the body points
+		// far beyond the end of the frame: a framing error inside an otherwise complete response
+		nth := t.CutAt
+		act.MutateFrame = func(frame []byte, fields []refcodec.LenField) []byte {
+			var inner []refcodec.LenField
+			for _, f := range fields {
+				if !f.Varint && f.Off >= 8 && (f.Kind == "string" || f.Kind == "bytes" || f.Kind == "array" || f.Kind == "records_size") {
+					inner = append(inner, f)
+				}
+			}
+			if len(inner) == 0 {
+				return frame
+			}
+			f := inner[nth%len(inner)]
+			out := append([]byte{}, frame...)
+			if f.Width == 2 {
+				out[f.Off], out[f.Off+1] = 0x7f, 0xf0
+			} else {
+				// moderate on purpose: the Conn's readers allocate what an array length announces (the statement about
+				// allocations, C20, covers the Transport / Client stack only)
+				out[f.Off], out[f.Off+1], out[f.Off+2], out[f.Off+3] = 0, 0, 0x7f, 0xf0
+			}
+			return out
+		}
 	}
 	if t.Site == "apiversions" {
 		if t.Field == "empty-list" {
@@ -383,6 +408,25 @@ func runTuple(tb ev.TB, t tuple) (delivered bool, firstClass string) {
 	}
 	// transport-level / framing faults: the first operation must fail with a
 	// non-Kafka error, every later operation must fail, nothing more is written
+	if err1 == nil && t.Fault == "bad-length" {
+		// The operation reported nothing (it may not read the damaged field, or it took the damage for the end of the data):
+		// then the Conn must be exactly where a fresh one is.
+		b := newEnv(tb, p)
+		defer b.cl.Close()
+		cb := b.dial(tb)
+		defer cb.Close()
+		cb.SetDeadline(time.Now().Add(1500 * time.Millisecond))
+		if _, errF := first.Run(b, cb); errF != nil {
+			return false, "bad-length-unnoticed"
+		}
+		resB, errB := next.Run(b, cb)
+		if classify(errA) != classify(errB) || (errA == nil && resA != resB) {
+			ev.Fail(tb, "tuple", fmt.Sprintf("c11/misaligned-after-bad-length/%s", t.Op), t,
+				"%s (%s) returned no error for a response whose inner length #%d points beyond the frame; then %s on the same Conn returned (%q, %v) but after the same (undamaged) operation on a fresh Conn (%q, %v)",
+				t.Op, apiVersionTag(first, p), t.CutAt, t.Next, resA, errA, resB, errB)
+		}
+		return false, "bad-length-unnoticed"
+	}
 	if err1 == nil {
 		if t.Fault == "cut" {
 			return false, "cut-beyond-what-the-operation-reads"
@@ -542,10 +586,17 @@ func TestTransportFaults(t *testing.T) {
 			Profile: rapid.SampledFrom([]string{"low", "mid", "high"}).Draw(t, "profile"),
 			Op:      ops[rapid.IntRange(0, len(ops)-1).Draw(t, "op")].Name,
 			Next:    ops[rapid.IntRange(0, len(ops)-1).Draw(t, "next")].Name,
-			Fault:   rapid.SampledFrom([]string{"cut", "cut", "drop", "no-response", "no-response", "garbage-size", "wrong-correlation"}).Draw(t, "fault"),
+			Fault:   rapid.SampledFrom([]string{"cut", "cut", "drop", "no-response", "no-response", "garbage-size", "wrong-correlation", "bad-length", "bad-length"}).Draw(t, "fault"),
 		}
 		if tp.Fault == "cut" {
 			tp.CutAt = rapid.IntRange(0, 60).Draw(t, "cutAt")
+		}
+		if tp.Fault == "bad-length" {
+			tp.CutAt = rapid.IntRange(0, 12).Draw(t, "nthLength")
+			if rapid.Bool().Draw(t, "fetchOp") {
+				// fetch responses have the longest header the Conn parses by hand
+				tp.Op = rapid.SampledFrom([]string{"ReadBatch", "ReadMessage"}).Draw(t, "fetchOpName")
+			}
 		}
 		ok, cls := runTuple(t, tp)
 		ev.Case(fmt.Sprintf("%+v", tp), ok, "fault_"+tp.Fault, "op_"+tp.Op, "first_"+cls)
